@@ -117,7 +117,7 @@ func TestC01(t *testing.T) {
 		"Non-trivial: the message has >=1 nested element, is a delete command carrying instructions/buckets, or is a bundle; distinct by hash of the bytes.")
 	c.Assume("generator preconditions of DESIGN.md Appendix B (bottom-up construction, caller-maintained Length fields, message fits 65535 bytes by the model's sizes)")
 	regressC01(t, c)
-	rapid.Check(t, func(rt *rapid.T) {
+	checkRapid(t, c, func(rt *rapid.T) {
 		// framing is a question about the message's own size and header, so the histories in which a nested
 		// action grows after it was attached (where the library sizes containers when asked) are in scope here
 		g := gen.New(rt, drawBudget(rt))
@@ -213,7 +213,7 @@ func TestC02(t *testing.T) {
 	c.Assume("the wire model (harness/spec, DESIGN.md Appendix A) is my transcription of the specifications; it is self-tested (Decode(Encode(t))==t) in TestModelSpecSelf",
 		"tun_metadata is variable-width: any payload of 1..124 bytes is accepted; the zero padding after a bundled message and after each bundle property is demanded (ONF EXT-230 / OF1.4 ofp_bundle_add_msg, ofp_bundle_prop_experimenter)")
 	regressC02(t, c)
-	rapid.Check(t, func(rt *rapid.T) {
+	checkRapid(t, c, func(rt *rapid.T) {
 		c.Eval()
 		if gen.Pick(rt, "standalone", 4) == 0 {
 			checkStandaloneWalk(c, rt)
@@ -318,7 +318,7 @@ func TestC03(t *testing.T) {
 	c.Assume("the wire model (harness/spec) and the generator's knowledge of what each constructor denotes (e.g. NewVlanIdField(v) denotes OFPVID_PRESENT|v) are mine",
 		"a flow-mod/group-mod delete denotes a message without instructions/buckets (OF1.3.5: ignored for delete; the library's own size function excludes them)")
 	regressC03(t, c)
-	rapid.Check(t, c03Prop(c))
+	checkRapid(t, c, c03Prop(c))
 }
 
 func c03Prop(c *ev.Collector) func(rt *rapid.T) {
@@ -335,7 +335,7 @@ func c03Prop(c *ev.Collector) func(rt *rapid.T) {
 // bytes into the generators' choices); thorough tier only.
 func FuzzC03(f *testing.F) {
 	c := ev.For("C03")
-	f.Fuzz(rapid.MakeFuzz(c03Prop(c)))
+	f.Fuzz(rapid.MakeFuzz(guardLib(c, c03Prop(c))))
 }
 
 func checkLayout(c *ev.Collector, t ev.Fataler, bm builtMsg) {
